@@ -933,6 +933,27 @@ private theorem sep_getitem {w w' : World} {x : Nat} {k : Key} (hs : Sep w)
     simp at hu; subst hu
     exact u1
 
+private theorem single_ok {h : Heap} {r : Val} (hr : UserVal h r) : ∀ v ∈ [r], UserVal h v := by
+  intro v hv; simp at hv; subst hv; exact hr
+
+private theorem sep_get {w w' : World} {x : Nat} {k : Key} {dflt : Leaf} (hs : Sep w)
+    (h : step w (.get x k dflt) = .ok w') : Sep w' := by
+  simp only [step] at h
+  repeat' split at h
+  all_goals first | cases h | skip
+  · rename_i a hr _ o kvs hg _ v hk
+    have ho := root_dict_user hs hr hg
+    subst ho
+    refine ⟨hs.heap, roots_ok hs (Ext.refl _) ?_⟩
+    intro u hu
+    simp at hu; subst hu
+    exact hs.heap.user_closed a kvs hg _ (kvGet_mem hk)
+  · exact ⟨hs.heap, roots_ok hs (Ext.refl _) (single_ok trivial)⟩
+  · exact ⟨hs.heap, roots_ok hs (Ext.refl _) (single_ok trivial)⟩
+  · rename_i a hr _ i hg _ kvs hin _ v hk _ h1 v' hw
+    obtain ⟨i1, u1⟩ := wrapVal_spec hs.heap (Or.inr (innerKvs_owned hs.heap hg hin _ (kvGet_mem hk))) hw
+    exact ⟨i1, roots_ok hs (wrapVal_ext hw) (single_ok u1)⟩
+
 private theorem sep_items {w w' : World} {x : Nat} (hs : Sep w)
     (h : step w (.items x) = .ok w') : Sep w' := by
   simp only [step] at h
@@ -945,9 +966,6 @@ private theorem sep_items {w w' : World} {x : Nat} (hs : Sep w)
   · rename_i a hr _ i hg _ h1 kvs hd
     obtain ⟨i1, u1⟩ := dictOf_spec hs.heap (root_valid hs hr) hd
     exact ⟨i1, roots_ok hs (dictOf_ext hd) (vals_of_kvs u1)⟩
-
-private theorem single_ok {h : Heap} {r : Val} (hr : UserVal h r) : ∀ v ∈ [r], UserVal h v := by
-  intro v hv; simp at hv; subst hv; exact hr
 
 private theorem sep_freeze {w w' : World} {x : Nat} (hs : Sep w)
     (h : step w (.freeze x) = .ok w') : Sep w' := by
@@ -1147,6 +1165,7 @@ theorem step_preserves_sep (w w' : World) (op : Op) (hs : Sep w) (h : step w op 
   | setKey d k src => exact sep_setKey hs h
   | delKey d k => exact sep_delKey hs h
   | getitem x k => exact sep_getitem hs h
+  | get x k d => exact sep_get hs h
   | items x => exact sep_items hs h
   | freeze x => exact sep_freeze hs h
   | unfreeze x => exact sep_unfreeze hs h
@@ -4021,5 +4040,40 @@ theorem registers_argument_counterexample :
     (Struct.structDataclassRegistersArgOrig ⟨false, true, true, true⟩ 0 1 [] [⟨"x", true, none⟩]).registered
       = (Struct.structDataclassRegistersArgOrig ⟨false, true, true, true⟩ 0 1 [] [⟨"x", true, none⟩]).returned := by
   decide
+
+/-- **`fd.get(k, default)` shares nothing mutable with `fd`**: it is `__getitem__`-or-default, so a nested dict
+comes back as a FrozenDict object — a *fresh* one (allocated by this call) wrapping a fresh copy — never as
+the stored dict; a missing key gives the default.  Being an `Op`, `get` is covered by `step_preserves_sep`,
+`frozen_separation` and `frozen_never_changes` like every other call. -/
+theorem get_shares_nothing (w w' : World) (hsep : Sep w) (x : Nat) (key : Key) (dflt : Leaf) (f i : Addr)
+    (hs : step w (.get x key dflt) = .ok w') (hx : w.roots[x]? = some (.ref f))
+    (hf : w.heap[f]? = some (Obj.frozen i)) :
+    ∃ r, w'.roots = w.roots ++ [r] ∧
+      ((∃ l, r = .leaf l) ∨
+       (∃ b, r = .ref b ∧ (∃ j, w'.heap[b]? = some (Obj.frozen j)) ∧
+          (w.heap.length ≤ b ∨ ∃ j, w.heap[b]? = some (Obj.frozen j)))) := by
+  simp only [step, hx, hf] at hs
+  repeat' split at hs
+  all_goals first | cases hs | skip
+  · exact ⟨_, rfl, Or.inl ⟨dflt, rfl⟩⟩
+  · rename_i kvs hin _ v hk _ h1 v' hw
+    refine ⟨v', rfl, ?_⟩
+    have hown := innerKvs_owned hsep.heap hf hin _ (kvGet_mem hk)
+    have hfv := wrapVal_frozenVal hw
+    cases v' with
+    | leaf l => exact Or.inl ⟨l, rfl⟩
+    | ref b =>
+      refine Or.inr ⟨b, rfl, hfv, ?_⟩
+      cases v with
+      | leaf l => simp [wrapVal] at hw
+      | ref a =>
+        rcases hown with ⟨kv, hkv⟩ | ⟨j, hj⟩
+        · simp only [wrapVal, hkv] at hw
+          obtain ⟨b', hb1, hb2⟩ := mkFrozen_fresh hw
+          injection hb1 with hb1; subst hb1; exact Or.inl hb2
+        · simp only [wrapVal, hj] at hw
+          simp at hw
+          obtain ⟨_, rfl⟩ := hw
+          exact Or.inr ⟨j, hj⟩
 
 end Flax.C15
